@@ -276,7 +276,7 @@ fn corr(seed: u64, n: usize) -> Vec<String> {
         let mwi = |s: &[u64], v: u64| match name { "rp64" => rp64::mwi(s, v), "rp62" => rp62::mwi(s, v), _ => jive::mwi(s, v) };
         // every length 0 .. 3 rate blocks (+1 chunk), then a few long ones
         let maxlen = 7 * rate * 3 + 8;
-        let step = if big { 1 } else { 3 };
+        let step = if big { 1 } else { 5 };
         let mut lens: Vec<usize> = (0..=maxlen).filter(|l| l % step == 0 || l % 7 <= 1 || l % (7 * rate) <= 1 || *l <= 16).collect();
         lens.extend([7 * rate * 4, 7 * rate * 4 + 3, 300]);
         if big { lens.extend([1000, 1001, 7 * rate * 20]); }
